@@ -96,8 +96,8 @@ def step (p : Params) (sc : Scen) (s : SSt) : List SSt :=
     -- faults
     ++ (if s.fE > 0 then (envReadFault i 1).map fun t => { observe s t with fE := s.fE - 1 } else [])
     ++ (if s.fR > 0 then (envReadFault i 2).map fun t => { observe s t with fR := s.fR - 1 } else [])
-    ++ (if s.fW > 0 then (envWriteFault i 1).map fun t => { observe s t with fW := s.fW - 1 } else [])
-    ++ (if s.fF > 0 then (envWriteFault i 2).map fun t => { observe s t with fF := s.fF - 1 } else [])
+    ++ (if s.fW > 0 then (envWriteFault p i 1).map fun t => { observe s t with fW := s.fW - 1 } else [])
+    ++ (if s.fF > 0 then (envWriteFault p i 2).map fun t => { observe s t with fF := s.fF - 1 } else [])
     ++ (if s.fD > 0 then (envDialFail i).map fun t => { observe s t with fD := s.fD - 1 } else [])
     -- end of phase
     ++ (if callsDone ∧ (ph.close = 0 ∨ i.cp = .cDone) then
